@@ -1416,8 +1416,12 @@ fn add_dirent<S: BitmapSlice>(
         padded_dirent_len
     };
 
-    // Skip the entry if there's no enough space left.
-    if (max as usize).saturating_sub(cursor.bytes_written()) < total_len {
+    // Skip the entry if there's no enough space left, either in the size the client asked for or
+    // in the reply buffer itself (which may be the smaller of the two).
+    let room = (max as usize)
+        .saturating_sub(cursor.bytes_written())
+        .min(cursor.available_bytes());
+    if room < total_len {
         Ok(0)
     } else {
         if let Some(entry) = entry {
